@@ -150,7 +150,8 @@ pub const SOUP_TOKENS: &[&str] = &[
     "[", "]", "{", "}", "#", "#c", " #c", "&a ", "&b", "*a", "*b ", "!", "!t ", "!!str ", "!!int ", "!e!x ", "!<u:v> ", "|", "|-", "|+\n", ">",
     ">+2", ">\n", "'", "\"", "'s'", "\"q\"", "\"\\n\"", "\\", "\\n", "\\x41", "\\u00e9", "\\\n", "%", "%YAML 1.2\n", "%TAG !e! tag:e:\n",
     "---", "--- ", "---\n", "...", "...\n", ".", "~", "null", "true", "0x1F", "1.5", "é", "中", "😀", "\u{feff}", "\u{85}", "\u{2028}", "\r", "\r\n",
-    "''", "\"\"", "[]", "{}", "a: b", "- a\n", "k:\n",
+    "''", "\"\"", "[]", "{}", "a: b", "- a\n", "k:\n", "abcdefghijklmnopqrst", "                 ", "\n                  ", "# a comment longer than sixteen\n",
+    "plain words here", "k: |\n  x\n  y\n", "- >\n a\n\n b\n",
 ];
 
 pub fn soup_strategy() -> impl Strategy<Value = Vec<&'static str>> {
@@ -318,6 +319,7 @@ pub struct TextPlan {
     pub soup: u64,
     pub lines: u64,
     pub mutations: u64,
+    pub deepblock: u64,
     pub rand_block: u64,
     pub corpus: bool,
 }
@@ -342,6 +344,9 @@ impl TextPlan {
         }
         if self.mutations > 0 {
             v.push(StreamSpec::new("mut", self.mutations.div_ceil(self.rand_block), false, &format!("{} mutated test-suite / golden documents (1..6 mutations)", self.mutations)));
+        }
+        if self.deepblock > 0 {
+            v.push(StreamSpec::new("deepblock", self.deepblock.div_ceil(self.rand_block), false, &format!("{} block scalars under indentation 0..140 (crossing the 16- and 128-char buffer thresholds), literal/folded x chomping x explicit indicator x line shapes x tail", self.deepblock)));
         }
         if self.corpus {
             v.push(StreamSpec::new("corpus", 1, true, "all 402 yaml-test-suite inputs and the golden seeds, unmodified"));
@@ -418,6 +423,20 @@ impl TextPlan {
                 );
                 post_shrink(ctx, check);
             }
+            "deepblock" => {
+                let n = Self::cases_in_block(self.deepblock, self.rand_block, block) as u32;
+                crate::engine::run_proptest(
+                    ctx,
+                    deep_block_strategy(),
+                    n,
+                    |d| text_case(&render_deep_block(d)),
+                    |ctx, d| {
+                        let s = render_deep_block(d);
+                        eval_text(ctx, check, &s)
+                    },
+                );
+                post_shrink(ctx, check);
+            }
             "corpus" => {
                 for s in seed_docs() {
                     if let Err(f) = eval_text(ctx, check, s) {
@@ -456,6 +475,17 @@ fn post_shrink(ctx: &mut Ctx, check: &dyn Fn(&mut CaseInfo, &str) -> CheckResult
     fail_text(ctx, check, &s, Fail::new(&last.category, last.detail.clone()));
 }
 
+impl TextPlan {
+    pub fn with_exh(mut self, exh: Vec<(&'static str, u32)>) -> TextPlan {
+        self.exh = exh;
+        self
+    }
+    pub fn with_deepblock(mut self, n: u64) -> TextPlan {
+        self.deepblock = n;
+        self
+    }
+}
+
 pub fn plan(tier: Tier, scale: f64) -> TextPlan {
     let q = |n: u64| ((n as f64) * scale) as u64;
     match tier {
@@ -465,6 +495,7 @@ pub fn plan(tier: Tier, scale: f64) -> TextPlan {
             soup: q(200_000),
             lines: q(100_000),
             mutations: q(100_000),
+            deepblock: 0,
             rand_block: 12_500,
             corpus: true,
         },
@@ -474,8 +505,87 @@ pub fn plan(tier: Tier, scale: f64) -> TextPlan {
             soup: q(2_500_000),
             lines: q(1_500_000),
             mutations: q(1_000_000),
+            deepblock: 0,
             rand_block: 50_000,
             corpus: true,
         },
     }
+}
+
+
+// ------------------------------------------------------------------------------------------------
+// Deeply indented block scalars (cross the input back-ends' buffer thresholds)
+// ------------------------------------------------------------------------------------------------
+
+#[derive(Clone, Debug)]
+pub struct DeepBlock {
+    pub indent: usize,
+    pub folded: bool,
+    pub chomp: u8,
+    pub explicit: bool,
+    pub lines: Vec<(u8, u8)>,
+    pub tail: u8,
+}
+
+pub fn deep_block_strategy() -> impl Strategy<Value = DeepBlock> {
+    (
+        prop_oneof![0usize..20, 5usize..20, 120usize..135, 0usize..140],
+        any::<bool>(),
+        0u8..3,
+        any::<bool>(),
+        proptest::collection::vec((0u8..4, 0u8..8), 0..6),
+        0u8..4,
+    )
+        .prop_map(|(indent, folded, chomp, explicit, lines, tail)| DeepBlock { indent, folded, chomp, explicit, lines, tail })
+}
+
+pub const DEEP_TEXTS: &[&str] = &["x", "text é", "", "# not a comment", "- a", "k: v", "中中中中中中中中中中中中中中中中中中", "\tt"];
+
+pub fn render_deep_block(d: &DeepBlock) -> String {
+    let mut s = String::new();
+    // nest mappings: one level per 7 columns, then pad the last key to reach `indent`
+    let mut col = 0;
+    while col + 7 <= d.indent {
+        s.push_str(&" ".repeat(col));
+        s.push_str("k:\n");
+        col += 7;
+    }
+    s.push_str(&" ".repeat(d.indent));
+    s.push_str("key: ");
+    s.push(if d.folded { '>' } else { '|' });
+    match d.chomp {
+        1 => s.push('-'),
+        2 => s.push('+'),
+        _ => {}
+    }
+    let content_indent = d.indent + 2;
+    if d.explicit {
+        s.push('2');
+    }
+    s.push('\n');
+    for (extra, t) in &d.lines {
+        let text = DEEP_TEXTS[*t as usize % DEEP_TEXTS.len()];
+        if text.is_empty() {
+            // empty line, possibly with some (fewer) spaces
+            s.push_str(&" ".repeat((*extra as usize * content_indent) / 4));
+        } else {
+            // explicit indicator allows the first line to be more indented
+            let e = if d.explicit { *extra as usize } else { 0 };
+            s.push_str(&" ".repeat(content_indent + e));
+            s.push_str(text);
+        }
+        s.push('\n');
+    }
+    match d.tail {
+        1 => s.push('\n'),
+        2 => {
+            s.push_str(&" ".repeat(d.indent));
+            s.push_str("next: v\n");
+        }
+        3 => {
+            s.pop();
+        }
+        _ => {}
+    }
+    s
 }
